@@ -17,14 +17,17 @@ EXTENDS IntLinAlg, Naturals, FiniteSets, TLC, Json
 CONSTANTS BP,           \* bound on the entries of the vectors
           MaxVertsP     \* maximal number of vectors of a scene
 
-VARIABLES chart, tm, pverts
+VARIABLES chart, tm, pverts,
+          rep        \* the scalar by which the representatives handed to the library are multiplied (free: same points)
 
 PRow(a, b, c) == <<a, b, c>>
 PTransforms == {IdMat(3),
                 <<PRow(1, 1, 0), PRow(0, 1, 0), PRow(0, 0, 1)>>,              \* a shear
                 <<PRow(0, 0, 1), PRow(1, 0, 0), PRow(0, 1, 0)>>,              \* cyclic permutation of the axes
                 <<PRow(2, 1, 0), PRow(0, 1, 1), PRow(1, 0, 3)>>,              \* general position, det 7
-                <<PRow(1, 0, 0), PRow(0, 0 - 1, 0), PRow(1, 1, 2)>>}           \* moves the line at infinity
+                <<PRow(1, 0, 0), PRow(0, 0 - 1, 0), PRow(1, 1, 2)>>,           \* moves the line at infinity
+                <<PRow(0 - 2, 0 - 1, 0), PRow(0, 0 - 1, 0 - 1), PRow(0 - 1, 0, 0 - 3)>>}   \* the general one, negated: the same map
+Reps == {1, 3, 0 - 1, 0 - 2}
 PVecs == {v \in Box(3, BP) : IsPrim(v)}
 
 PImage(M, v) == MatVec(M, v)
@@ -34,10 +37,10 @@ PChart(w, i) == <<R(w[POthers(i)[1]], w[i + 1]), R(w[POthers(i)[2]], w[i + 1])>>
 \* homogeneous vector of the affine point a of chart i
 PFromChart(a, i) == ClearDen(CASE i = 0 -> <<ROne, a[1], a[2]>> [] i = 1 -> <<a[1], ROne, a[2]>> [] i = 2 -> <<a[1], a[2], ROne>>)
 
-Init == chart \in 0..2 /\ tm \in PTransforms /\ pverts = <<>>
+Init == chart \in 0..2 /\ tm \in PTransforms /\ pverts = <<>> /\ rep \in Reps
 AddVec(v) == /\ Len(pverts) < MaxVertsP /\ \A j \in 1..Len(pverts) : pverts[j] # v
              /\ PInChart(PImage(tm, v), chart)
-             /\ pverts' = Append(pverts, v) /\ UNCHANGED <<chart, tm>>
+             /\ pverts' = Append(pverts, v) /\ UNCHANGED <<chart, tm, rep>>
 Next == \E v \in PVecs : AddVec(v)
 
 Img(j) == PImage(tm, pverts[j])
@@ -54,7 +57,15 @@ Collinear == \A a, b \in 1..Len(pverts) : \A c \in {Len(pverts)} :
 Invertible == PDet3(tm[1], tm[2], tm[3]) # 0
 LinesToLines == \A a, b \in 1..Len(pverts) : \A c \in {Len(pverts)} : (PDet3(pverts[a], pverts[b], pverts[c]) = 0) <=> (PDet3(Img(a), Img(b), Img(c)) = 0)
 
-EmitProj == pverts = <<>> \/ PrintT("EMIT " \o ToJson([chart |-> chart, M |-> tm, verts |-> pverts,
+\* homogeneous coordinates are defined up to a non-zero scalar: chart coordinates do not see it
+ScaleFree == \A j \in 1..Len(pverts) : \A c \in Reps \cup {2, 0 - 3} :
+               PChart(VScale(c, Img(j)), chart) = PChart(Img(j), chart) /\ PChart(PImage(MatScale(c, tm), pverts[j]), chart) = PChart(Img(j), chart)
+\* the polygon lies in the affine chart (no edge through the line at infinity) iff the chart coordinate has one sign;
+\* a polygon with both signs "crosses infinity" (draw_polygon(assume_affine=False) draws it as two unbounded patches)
+OneSign == \/ \A j \in 1..Len(pverts) : Img(j)[chart + 1] > 0
+           \/ \A j \in 1..Len(pverts) : Img(j)[chart + 1] < 0
+
+EmitProj == pverts = <<>> \/ PrintT("EMIT " \o ToJson([chart |-> chart, M |-> tm, verts |-> pverts, rep |-> rep, onesign |-> OneSign,
                                                           aff |-> [j \in 1..Len(pverts) |-> PChart(Img(j), chart)]]))
 
 (***************************************************************************)
